@@ -201,7 +201,15 @@ template<class Body> inline void run_case(const std::string &name, Body body, co
 #endif
 }
 
+// GMP aborts the process when an allocation fails; turn that into std::bad_alloc so that a case that exhausts the address-space budget is
+// stopped and reported ("harness memory budget exhausted") instead of taking the whole shard down
+inline void *gmp_alloc_throw(size_t n) { void *p=std::malloc(n); if (!p) throw std::bad_alloc(); return p; }
+inline void *gmp_realloc_throw(void *q, size_t, size_t n) { void *p=std::realloc(q,n); if (!p) throw std::bad_alloc(); return p; }
+inline void gmp_free_plain(void *p, size_t) { std::free(p); }
 inline void parse_args(int argc, char **argv) { Args &a=args();
+#ifdef HX_SYM
+    mp_set_memory_functions(gmp_alloc_throw,gmp_realloc_throw,gmp_free_plain);
+#endif
 #ifndef __SANITIZE_ADDRESS__
     { struct rlimit rl; rl.rlim_cur=rl.rlim_max=(rlim_t)6<<30; setrlimit(RLIMIT_AS,&rl); }
 #endif
